@@ -1114,15 +1114,21 @@ def replay_leafwise(case):
 
 _CHILD = r"""
 import json, sys
-from checks.c14 import dec
-from configs.validate import validate_config_api
+import hashlib
+from checks.c14 import dec, canon
+from configs.validate import validate_config_api, validate_config_verbose
 from clematis.errors import ConfigError
 cases = json.load(open(sys.argv[1], encoding="utf-8"))
 out = []
 for c in cases:
     try:
-        ok, errs, _ = validate_config_api(dec(c))
-        out.append([bool(ok), list(errs)])
+        cfg = dec(c)
+        ok, errs, norm = validate_config_api(cfg)
+        row = [bool(ok), list(errs)]
+        if ok:  # normalised dict and warnings must not depend on the hash seed either
+            row.append(hashlib.sha1(repr(canon(norm)).encode()).hexdigest()[:16])
+            row.append(list(validate_config_verbose(cfg)[1]))
+        out.append(row)
     except Exception as e:
         out.append(["exc", type(e).__name__])
 json.dump(out, open(sys.argv[2], "w", encoding="utf-8"))
